@@ -1,6 +1,7 @@
 import MythVerif.Model.PthreadSpec
 import MythVerif.Proofs.MutexStaticInit
 import MythVerif.Proofs.PthProg
+import MythVerif.Proofs.PthGate
 /-!
 # C16 — pthread programs behave the same on MassiveThreads as on the system pthreads
 
@@ -459,3 +460,140 @@ example : ∃ σ', Steps (.fork (.add 0 2) (.add 0 3), fun _ => 0) (.ret 0, σ')
   simp [Store.bump]
 
 end MythVerif.PthProg
+
+/-! ## extension of the determinate fragment: monotone gates (condition-variable pattern)
+
+`MythVerif.PthGate.GProg` = `Prog` + `post g n` (lock; gate[g] += n; broadcast; unlock — one atomic
+section) + `await g n` (lock; while (gate[g] < n) cond_wait; unlock — enabled only when
+`gate[g] ≥ n`).  Unlike the gate-free fragment such a program may deadlock, so the statement is:
+**whenever it terminates the result is `geval p`**, gates only grow, there is no divergence, and
+the only way not to terminate is a deadlock (every remaining thread at an `await` below its
+threshold). -/
+
+namespace MythVerif.PthGate
+open MythVerif.PthProg (Store Store.bump)
+
+/-- **determinate fragment with gates**: for every fork-join program over lock-protected
+    commutative counter updates and monotone gates, from every initial counters `σ` and gates `γ`,
+    every complete execution of the abstract interface ends with the return value `gval p`, the
+    counters `σ + gdelta p` and the gates `γ + gposts p` (`= geval p σ γ`; awaits contribute
+    nothing); hence ANY two complete executions end with the same value, the same counters and the
+    same gate values: the result is determinate whenever the program terminates. -/
+theorem C16_eval_determinate_gates (p : GProg) (σ : Store) (γ : Gates) :
+    (∀ v σ' γ', Steps (p, σ, γ) (.ret v, σ', γ') →
+      (v, σ', γ') = geval p σ γ ∧
+      v = gval p ∧ (∀ i, σ' i = σ i + gdelta p i) ∧ (∀ g, γ' g = γ g + gposts p g)) ∧
+    (∀ v v' σ₁ σ₂ γ₁ γ₂, Steps (p, σ, γ) (.ret v, σ₁, γ₁) → Steps (p, σ, γ) (.ret v', σ₂, γ₂) →
+      v = v' ∧ σ₁ = σ₂ ∧ γ₁ = γ₂) := by
+  have main : ∀ v σ' γ', Steps (p, σ, γ) (.ret v, σ', γ') →
+      (v, σ', γ') = geval p σ γ ∧
+      v = gval p ∧ (∀ i, σ' i = σ i + gdelta p i) ∧ (∀ g, γ' g = γ g + gposts p g) := by
+    intro v σ' γ' h
+    have hp := steps_preserve _ _ h
+    simp only [gval, gdelta, gposts] at hp
+    have hσ : ∀ i, σ' i = σ i + gdelta p i := by intro i; have := hp.2.1 i; omega
+    have hγ : ∀ g, γ' g = γ g + gposts p g := by intro g; have := hp.2.2 g; omega
+    have hσ' : σ' = fun i => σ i + gdelta p i := funext hσ
+    have hγ' : γ' = fun g => γ g + gposts p g := funext hγ
+    refine ⟨?_, hp.1, hσ, hγ⟩
+    simp [geval, hp.1, ← hσ', ← hγ']
+  refine ⟨main, ?_⟩
+  intro v v' σ₁ σ₂ γ₁ γ₂ h1 h2
+  have e1 := (main v σ₁ γ₁ h1).1
+  have e2 := (main v' σ₂ γ₂ h2).1
+  have e : (v, σ₁, γ₁) = (v', σ₂, γ₂) := e1.trans e2.symm
+  simp only [Prod.mk.injEq] at e
+  exact e
+
+/-- **gates are monotone**: along every execution no gate ever decreases — so an `await` whose
+    threshold has been reached stays enabled until it is taken (a broadcast is never "lost") — and
+    a gate never exceeds its initial value plus what the program posts
+    (`gate + remaining posts` is invariant). -/
+theorem C16_gates_monotone (p p' : GProg) (σ σ' : Store) (γ γ' : Gates)
+    (h : Steps (p, σ, γ) (p', σ', γ')) :
+    (∀ g, γ g ≤ γ' g) ∧
+    (∀ g n, n ≤ γ g → n ≤ γ' g) ∧
+    (∀ g, γ' g + gposts p' g = γ g + gposts p g) ∧
+    (∀ g, γ' g ≤ γ g + gposts p g) := by
+  have hm := steps_gates_mono _ _ h
+  have hp := (steps_preserve _ _ h).2.2
+  refine ⟨hm, ?_, hp, ?_⟩
+  · intro g n hn; exact Nat.le_trans hn (hm g)
+  · intro g; have := hp g; simp only at this; omega
+
+/-- **the only way not to terminate is a deadlock**: every step strictly decreases `gsize`, so
+    every execution from `p` has at most `gsize p` steps and there is no infinite execution (no
+    divergence); and a reachable configuration that has no step is either complete — and then its
+    result is `geval p σ γ` — or `Blocked`: it is not finished and every remaining thread is at an
+    `await` whose gate is below its threshold (there is at least one such thread).  Conversely a
+    `Blocked` configuration is indeed stuck and not final. -/
+theorem C16_gates_stuck_is_deadlock (p : GProg) (σ : Store) (γ : Gates) :
+    (∀ x y, Step x y → gsize y.1 < gsize x.1) ∧
+    (∀ p' σ' γ', Steps (p, σ, γ) (p', σ', γ') → gsize p' ≤ gsize p) ∧
+    (¬ ∃ f : Nat → Cfg, f 0 = (p, σ, γ) ∧ ∀ n, Step (f n) (f (n + 1))) ∧
+    (∀ p' σ' γ', Steps (p, σ, γ) (p', σ', γ') → (∀ y, ¬ Step (p', σ', γ') y) →
+      (∃ v, p' = .ret v ∧ (v, σ', γ') = geval p σ γ) ∨
+      ((∀ v, p' ≠ .ret v) ∧ Blocked γ' p' ∧ waits p' ≠ [] ∧ ∀ gn ∈ waits p', γ' gn.1 < gn.2)) ∧
+    (∀ p' σ' γ', Blocked γ' p' → (∀ y, ¬ Step (p', σ', γ') y) ∧ ∀ v, p' ≠ .ret v) := by
+  refine ⟨step_size, ?_, ?_, ?_, ?_⟩
+  · intro p' σ' γ' h; exact steps_length _ _ h
+  · rintro ⟨f, _, hf⟩; exact no_infinite_run f hf
+  · intro p' σ' γ' h hstuck
+    rcases progress p' σ' γ' with ⟨v, rfl⟩ | hb | ⟨y, hs⟩
+    · exact Or.inl ⟨v, rfl, ((C16_eval_determinate_gates p σ γ).1 v σ' γ' h).1⟩
+    · refine Or.inr ⟨?_, hb, blocked_waits γ' p' hb⟩
+      intro v hv; subst hv; exact blocked_not_ret γ' v hb
+    · exact absurd hs (hstuck _)
+  · intro p' σ' γ' hb
+    refine ⟨fun y => blocked_no_step γ' p' hb σ' y, ?_⟩
+    intro v hv; subst hv; exact blocked_not_ret γ' v hb
+
+/-- non-vacuity: the child adds to a counter and posts, the parent awaits the gate and returns 7.
+    A complete execution exists (the child's post first, then the parent's await) and its result
+    is the formula. -/
+example : ∃ v σ' γ',
+    Steps (.fork (.seq (.add 0 2) (.post 0 1)) (.seq (.await 0 1) (.ret 7)), fun _ => 0, fun _ => 0) (.ret v, σ', γ') ∧
+    v = 7 ∧ σ' 0 = 2 ∧ γ' 0 = 1 ∧ γ' 1 = 0 ∧
+    (v, σ', γ') = geval (.fork (.seq (.add 0 2) (.post 0 1)) (.seq (.await 0 1) (.ret 7))) (fun _ => 0) (fun _ => 0) := by
+  let σ0 : Store := fun _ => 0
+  let γ0 : Gates := fun _ => 0
+  have hg : 1 ≤ (γ0.bump 0 1) 0 := by simp [Gates.bump, γ0]
+  have h : Steps (.fork (.seq (.add 0 2) (.post 0 1)) (.seq (.await 0 1) (.ret 7)), σ0, γ0)
+      (.ret (0 + 0 + (0 + 7)), σ0.bump 0 2, γ0.bump 0 1) :=
+    Steps.cons _ _ _ (Step.fork _ _ _ _)
+    (Steps.cons _ _ _ (Step.parL _ _ _ _ _ _ _ (Step.seqL _ _ _ _ _ _ _ (Step.add 0 2 σ0 γ0)))
+    (Steps.cons _ _ _ (Step.parL _ _ _ _ _ _ _ (Step.seqR _ _ _ _ _ _ _ (Step.post 0 1 (σ0.bump 0 2) γ0)))
+    (Steps.cons _ _ _ (Step.parL _ _ _ _ _ _ _ (Step.seqDone 0 0 _ _))
+    (Steps.cons _ _ _ (Step.parR _ _ _ _ _ _ _ (Step.seqL _ _ _ _ _ _ _ (Step.await 0 1 (σ0.bump 0 2) (γ0.bump 0 1) hg)))
+    (Steps.cons _ _ _ (Step.parR _ _ _ _ _ _ _ (Step.seqDone 0 7 _ _))
+    (Steps.cons _ _ _ (Step.join (0 + 0) (0 + 7) _ _) (Steps.refl _)))))))
+  refine ⟨_, _, _, h, by decide, by simp [Store.bump, σ0], by simp [Gates.bump, γ0], by simp [Gates.bump, γ0], ?_⟩
+  exact ((C16_eval_determinate_gates _ _ _).1 _ _ _ h).1
+
+/-- non-vacuity: before the child's post the parent's await is not enabled — the parent thread
+    alone cannot move (only the child can) -/
+example (σ : Store) (y : Cfg) : ¬ Step (.seq (.await 0 1) (.ret 7), σ, fun _ => 0) y :=
+  blocked_no_step _ _ (Blocked.seqL _ _ (Blocked.await 0 1 (by decide))) σ y
+
+/-- non-vacuity: a deadlock — an await with no post (the post comes after the await in the same
+    thread, and the child awaits a gate nobody posts): stuck, not final, every thread at an await -/
+example (σ : Store) :
+    let p : GProg := .par (.await 1 1) (.seq (.await 0 1) (.post 0 1))
+    (∀ y, ¬ Step (p, σ, fun _ => 0) y) ∧ (∀ v, p ≠ .ret v) ∧ Blocked (fun _ => 0) p ∧
+    waits p = [(1, 1), (0, 1)] ∧
+    -- and it is reachable from a `fork`
+    Steps (.fork (.await 1 1) (.seq (.await 0 1) (.post 0 1)), σ, fun _ => 0) (p, σ, fun _ => 0) := by
+  intro p
+  have hb : Blocked (fun _ => 0) p :=
+    Blocked.parLR _ _ (Blocked.await 1 1 (by decide)) (Blocked.seqL _ _ (Blocked.await 0 1 (by decide)))
+  refine ⟨fun y => blocked_no_step _ _ hb σ y, ?_, hb, rfl, Steps.cons _ _ _ (Step.fork _ _ _ _) (Steps.refl _)⟩
+  intro v; simp [p]
+
+/-- non-vacuity: the simplest deadlock, `await` alone -/
+example (σ : Store) : (∀ y, ¬ Step (.await 0 1, σ, fun _ => 0) y) ∧ (∀ v, GProg.await 0 1 ≠ .ret v) := by
+  refine ⟨?_, by intro v h; cases h⟩
+  intro y h
+  cases h with
+  | await _ _ _ _ hle => simp at hle
+
+end MythVerif.PthGate
